@@ -1,0 +1,40 @@
+//go:build verif
+
+package primitives
+
+// Contracts for the contract-based deductive verification in /verif (engine: gvc).
+// Comment-only: with the tag off this file is not compiled, with it on it adds no code.
+//
+// Decoder side of C15: every function is checked for panic freedom (index and slice bounds, nil
+// dereference) for every input string, its loops terminate (decreases clauses), and the
+// postconditions give the callers what their own termination and structure arguments need.
+
+//@ func ReadLine
+//@   props C15
+//@   ensures strlen(result0) <= strlen(s)
+//@   ensures strlen(result1) < strlen(s) || (strlen(s) == 0 && result0 == "" && result1 == "")
+//@ end
+
+//@ func SkipHeader
+//@   props C15
+//@   ensures result1 == nil ==> strlen(result0) <= strlen(s)
+//@ end
+
+//@ func Attributes.Unmarshal
+//@   props C15
+//@   modifies *a
+//@   loop 1 invariant strlen(v) >= 0
+//@   loop 1 decreases strlen(v)
+//@   ensures result == nil ==> *a != nil
+//@ end
+
+//@ func ByteRange.Unmarshal
+//@   props C14 C15
+//@   modifies b.Length, b.Start
+//@   ensures [C14] b.Start == old(b.Start) || fresh(b.Start)
+//@ end
+
+//@ func Duration.Unmarshal
+//@   props C15
+//@   modifies *d
+//@ end
